@@ -338,6 +338,42 @@ func TestC11Race(t *testing.T) {
 		cl.Destroy()
 		fmt.Printf("C11-STATS relogin-during-renewal requests=%d logins=%d\n", reqs, logins)
 	})
+	// S5: the TGT runs out during a KDC outage (every renewal attempt fails); when the KDCs are back, requests
+	// from several goroutines find an expired session and have to log in again
+	c11Watchdog("expired-session-after-outage", 45*time.Second, func() {
+		sim := newKDCSim(simPolicy{maxLife: 2 * time.Second, maxRenew: time.Hour, sessionEt: 18}, 24*time.Hour, NewRNG(7))
+		defer sim.close()
+		cfg, err := config.NewFromString(sim.conf(" ticket_lifetime = 24h\n renew_lifetime = 72h\n"))
+		if err != nil {
+			t.Fatal(err)
+		}
+		cl := client.NewWithPassword(c09User, "TEST.GOKRB5", clientPassword, cfg, client.DisablePAFXFAST(true))
+		if err := cl.Login(); err != nil {
+			fmt.Printf("C11-NOTE login failed: %v\n", err)
+		}
+		atomic.StoreInt32(&sim.down, 1)
+		time.Sleep(2600 * time.Millisecond) // the TGT (2 s) has ended, its renewals have failed
+		atomic.StoreInt32(&sim.down, 0)
+		var wg sync.WaitGroup
+		var okN, failN int64
+		for g := 0; g < 4; g++ {
+			wg.Add(1)
+			go func(g int) {
+				defer wg.Done()
+				for i := 0; i < 3; i++ {
+					if _, _, err := cl.GetServiceTicket(spns[(g+i)%3]); err != nil {
+						atomic.AddInt64(&failN, 1)
+					} else {
+						atomic.AddInt64(&okN, 1)
+					}
+				}
+			}(g)
+		}
+		wg.Wait()
+		cl.Print(io.Discard)
+		cl.Destroy()
+		fmt.Printf("C11-STATS expired-session-after-outage ok=%d failed=%d\n", okN, failN)
+	})
 	// S2: one configuration shared by goroutines resolving servers and realms, and by two clients
 	c11Watchdog("shared-config", 60*time.Second, func() {
 		sim := newKDCSim(simPolicy{maxLife: time.Hour, sessionEt: 18}, 24*time.Hour, rng)
